@@ -23,6 +23,13 @@ pub mod lock {
             pub use ::std::hint::*;
             pub use shuttle::hint::spin_loop;
         }
+        // thread-local storage must be per *simulated* thread
+        pub use shuttle::thread_local;
+    }
+    // the prelude macro `thread_local!` (textual scope: must precede the include)
+    #[allow(unused_macros)]
+    macro_rules! thread_local {
+        ($($t:tt)*) => { shuttle::thread_local! { $($t)* } };
     }
     mod core {
         pub use ::core::*;
